@@ -129,6 +129,7 @@ type World struct {
 	handler sdk.Handler
 	cbLog   []cbRec
 	modProv sdk.AccAddress
+	imp     *World // pristine second application, target of genesis imports (C19)
 }
 
 const height0 = int64(10)
